@@ -1,4 +1,5 @@
 import CffiVerif.Proofs.EmbeddingC
+import CffiVerif.Generated.EmbeddingSteps
 
 /-!
 C28 — embedded-library start-up initialises once and never deadlocks (partial).
@@ -86,6 +87,51 @@ step (library 0's init code calls library 1 while library 1's init code calls li
 theorem no_deadlock_partial (s : State) (h : Reachable s) (hac : AcyclicInitCalls s)
     (t : Tid) (ht : s.thr t ≠ []) : NonCallStep s :=
   progress_of_acyclic (reachable_inv h) hac t ht
+
+/-! ### Tie to the source: the control paths re-extracted from `_embedding.h` on every run -/
+
+open CffiVerif.Generated.EmbeddingSteps in
+/-- The control paths of `_cffi_carefully_make_gil`, `_cffi_start_python` and
+`_cffi_start_and_call_python`, as extracted from the working tree, are exactly the operation
+sequences obtained by running the transition system's `step?` for one thread (all outcomes of
+`Py_IsInitialized()`, `called`, the init code, `org`), plus the unreachable `return NULL` after a
+failing `_cffi_carefully_make_gil` (which always returns 0, first conjunct). -/
+theorem steps_are_source :
+    makeGilPaths = [gilTrace false, gilTrace true] ∧
+    startPythonPaths = [.makeGilOk false, .retNull] ::
+      [startTrace false true, startTrace false false, startTrace true true].map (fun p => .makeGilOk true :: p) ∧
+    startAndCallPaths = [callTrace false, callTrace true] := by
+  decide
+
+open CffiVerif.Generated.EmbeddingSteps in
+/-- On every control path of `_cffi_start_python` the reentrant mutex, once acquired, is released
+exactly once before the function returns (and a path that never acquired it returns without releasing). -/
+theorem every_path_releases_mutex :
+    ∀ p ∈ startPythonPaths,
+      p.filter (fun o => o == .acquireMutex || o == .releaseMutex || o == .retOrg || o == .retNull)
+        = [.acquireMutex, .releaseMutex, .retOrg] ∨
+      p.filter (fun o => o == .acquireMutex || o == .releaseMutex || o == .retOrg || o == .retNull)
+        = [.retNull] := by
+  decide
+
+open CffiVerif.Generated.EmbeddingSteps in
+/-- On every control path of `_cffi_carefully_make_gil` the spin lock is taken first and released
+once, `Py_InitializeEx` is called only inside and only after `Py_IsInitialized()` said no, and the
+function returns 0. -/
+theorem every_path_releases_spin_lock :
+    ∀ p ∈ makeGilPaths,
+      p.filter (fun o => o != .saveThread) = [.spinAcquire, .pyIsInit true, .spinRelease, .retZero] ∨
+      p.filter (fun o => o != .saveThread) = [.spinAcquire, .pyIsInit false, .pyInitialize, .spinRelease, .retZero] := by
+  decide
+
+open CffiVerif.Generated.EmbeddingSteps in
+/-- `_cffi_start_and_call_python` zeroes the result exactly when the start-up returned NULL, and
+otherwise calls through the returned pointer. -/
+theorem null_pointer_gives_zeroed_result :
+    ∀ p ∈ startAndCallPaths,
+      (SrcOp.fnNull true ∈ p → SrcOp.zeroResult ∈ p ∧ SrcOp.callFn ∉ p) ∧
+      (SrcOp.fnNull false ∈ p → SrcOp.callFn ∈ p ∧ SrcOp.zeroResult ∉ p) := by
+  decide
 
 /-! ### Non-vacuity: concrete reachable states -/
 
